@@ -276,6 +276,41 @@ it translates exactly as before; the statement forms are in `_Fun.block7`, tried
   `t.traverse(..)` are the lists of their items (the declaration of the function type states that the receiver only iterates
   the result); `Unit.lookup_lists[(nodedict type, list type)]`: a TOTAL Coq term for `[d[k]]` -- a declared deviation from
   Python's KeyError that the driver documents.
+
+Eighth extension (used by `translator/uspfs_gen.py`; everything is switched on by `Unit.use_eighth`, which needs `use_tables` and
+`use_seventh`; a unit that does not call it translates exactly as before; the statement forms are in `_Fun.block8`, tried first
+for every statement, the expression forms in `_Fun.expr8` / `ntype8`):
+
+* `x: T = e` in a function body is `x = e` (the annotation of a local variable is not evaluated: PEP 526);
+* `Unit.sets8[<type>] = (element type, Coq equality, order function)`: a Python set of immutable values as an immutable VALUE (a
+  duplicate-free list; the type is declared `opaque`, `<=` being its declared `leb`): `set()`, `set(xs)` of a list
+  (`gset_of_list`), `a | b` (`gset_union`), `set().union(*(d1[c] for c in x.children)).difference(*(d2[c] for c in x.children))`
+  (the values are read first, in the order of the children: `dict_gets8`, KeyError; then `fold_left gset_union / gset_diff`); a
+  set is never updated in place except through `d[k].add(e)` below, where the dictionary is the only holder of its sets (they
+  are created by `set()` in a comprehension / by the defaultdict);
+* `Unit.ddicts8[<type>] = (key type, set type)`: `d = defaultdict(set)` (checked: `from collections import defaultdict`), a
+  dictionary kept as the list of its items in insertion order; `d[k].add(e)` is `ddict_add8` (a missing key gets the empty set,
+  as a new last item, then e is added); `for k, v in d.items()`: the items in insertion order;
+* dictionaries keyed by nodes (`nodedict`) whose values are such sets: `d = {}`, `d = {node: e for node in t.traverse(..)}` (one
+  store per node, e unable to raise and not mentioning the node), `d[k].add(e)` (the set at k is read -- KeyError --, e added,
+  the new set stored for k), `d = f(..)` for a function of the unit declared `fresh` that returns such a dictionary;
+* `Unit.items8[<mapping type>] = (Coq function, item type)`: `for k, v in <mapping>.items()` iterates the list the function gives
+  (the driver's Section variable: Python's iteration order of that dictionary); `Unit.varcalls8[<opaque type>] = (set type,
+  result type, Coq function)`: `f(*s)`, f a variable of that opaque type and s a set variable: the function applied to f and to
+  the items of s in the order the set's order function decides;
+* `for x in E`, E a declared enum class: its members in definition order; `for x in f(..)`, f a parameter of function type
+  returning a list;
+* `Unit.kinddicts8[<type>] = (enum, named tuple)`: a dictionary with one item per member of the enum, as the association list of
+  its items in definition order: `xs = tuple(dict((k, C._make(o.m() for _ in range(len(C._fields)))) for k in E) for _ in
+  range(n))` (`o.m()` evaluated once: see `make_idiom`), `xs[i][k].f.m(..)` as a statement (IndexError, KeyError; the object is
+  put back into the named tuple, that into the dictionary where k stands, the dictionary into the tuple), reads
+  `xs[<literal>][k].f` (k a variable) hoisted before their statement in the order of their first occurrence (as
+  `item_field_reads`: reading has no effect, so that this can only change WHICH error is reported);
+* `Unit.proxy_alias8`: `x = table[a][b]` with x declared `proxyalias`: the chain is evaluated where it stands (its effect on the
+  table and its errors happen there) and every later `x[k]..` is translated as the chain `table[a][b][k]..` evaluated in full
+  (a, b: variables not assigned again; any other use of x aborts).  ASSUMPTION of the driver that sets the flag: a proxy is a
+  (table, prefix) pair without state of its own, and evaluating `table[a][b]` again on the same keys has no further effect on the
+  table and yields an equal proxy.
 """
 from __future__ import annotations
 
@@ -765,6 +800,17 @@ class _Fun:
                         and is_tuple(self.spec.types.get(n.func.value.value.value.id, "")) \
                         and arg_of(self.spec.types[n.func.value.value.value.id]) in self.unit.datas:
                     out.add(n.func.value.value.value.id)       # xs[i].f.m(..): the item of xs is replaced
+                if self.unit is not None and self.unit.eighth and isinstance(n, ast.Call) and isinstance(n.func, ast.Attribute):
+                    v8 = n.func.value
+                    if n.func.attr == "add" and isinstance(v8, ast.Subscript) and isinstance(v8.value, ast.Name):
+                        dt8 = self.spec.types.get(v8.value.id, "")
+                        if dt8 in self.unit.ddicts8 or (dt8 in self.unit.nodedicts and self.unit.nodedicts[dt8][1] in self.unit.sets8):
+                            out.add(v8.value.id)               # d[k].add(e): the set stored for k is replaced
+                    if isinstance(v8, ast.Attribute) and isinstance(v8.value, ast.Subscript) \
+                            and isinstance(v8.value.value, ast.Subscript) and isinstance(v8.value.value.value, ast.Name) \
+                            and is_tuple(self.spec.types.get(v8.value.value.value.id, "")) \
+                            and arg_of(self.spec.types[v8.value.value.value.id]) in self.unit.kinddicts8:
+                        out.add(v8.value.value.value.id)       # xs[i][k].f.m(..): the item of xs is replaced
                 if self.tables():
                     if isinstance(n, (ast.Yield, ast.YieldFrom)):
                         out.add("acc'")
@@ -888,6 +934,10 @@ class _Fun:
     def ntype(self, e, env) -> str:
         """Natural type of an expression: a declared type, lit (int literal: adapts), none (the
         constant None: any option type) or newlist (a list display: any list type)."""
+        if self.unit is not None and self.unit.eighth:
+            r8 = self.ntype8(e, env)
+            if r8 is not None:
+                return r8
         if isinstance(e, ast.Constant):
             if isinstance(e.value, bool):
                 return "bool"
@@ -1252,6 +1302,10 @@ class _Fun:
             return f"({self.expr(e.elts[0], wa, env, hoist)}, {self.expr(e.elts[1], wb, env, hoist)})"
         if self.tables():
             want = self.canon(want)
+            if self.unit.eighth:
+                r = self.expr8(e, want, env, hoist)
+                if r is not None:
+                    return r
             if self.unit.seventh:
                 r = self.expr7(e, want, env, hoist)
                 if r is not None:
@@ -3076,6 +3130,403 @@ class _Fun:
             return self.hoisted(h, [f"let {d} := (adict_set eqb {d} {key} (set_add {val} {old})) in"] + self.block(rest, env, ctx), ctx)
         return None
 
+    # ------------------------------------------------------------ eighth extension (translator/uspfs_gen.py)
+    def set8(self, t: str):
+        """(element type, equality, order parameter) when `t` is a set type of the eighth extension (`Unit.sets8`)."""
+        return self.unit.sets8.get(t) if self.unit is not None and self.unit.eighth else None
+
+    def enum_iter8(self, a):
+        """The enum when `a` is the bare name of a declared enum class (iterating it yields its members in definition order)."""
+        if isinstance(a, ast.Name) and self.unit is not None and self.unit.eighth and a.id in self.unit.enums \
+                and a.id not in self.spec.types:
+            return a.id
+        return None
+
+    def items8(self, a, env):
+        """(term, element type) when `a` is `<e>.items()`: e a variable of a `ddict8` type (the items in insertion order) or an
+        expression of a mapping type for which the driver names the function giving its items (`Unit.items8`)."""
+        if not (self.unit is not None and self.unit.eighth and isinstance(a, ast.Call) and isinstance(a.func, ast.Attribute)
+                and a.func.attr == "items" and not a.args and not a.keywords):
+            return None
+        v = a.func.value
+        try:
+            t = self.ntype(v, env)
+        except TranslatorAbort:
+            return None
+        if t in self.unit.ddicts8 and isinstance(v, ast.Name):
+            kt, st = self.unit.ddicts8[t]
+            return v.id, f"pair {kt} {st}"
+        if t in self.unit.items8:
+            fn, et = self.unit.items8[t]
+            sub: list = []
+            term = f"({fn} {self.expr(v, t, env, sub)})"
+            if sub:
+                self.abort(a, "items() of an expression that can raise")
+            return term, et
+        return None
+
+    def children_gets8(self, g, env):
+        """(dictionary variable, its type, tree variable) when `g` is the generator `(d[c] for c in x.children)`, d a
+        dictionary keyed by the nodes of the binary tree type of x."""
+        if not (isinstance(g, ast.GeneratorExp) and len(g.generators) == 1 and not g.generators[0].ifs
+                and not g.generators[0].is_async and isinstance(g.generators[0].target, ast.Name)):
+            return None
+        c = g.generators[0].target.id
+        it = g.generators[0].iter
+        if not (isinstance(it, ast.Attribute) and it.attr == "children" and isinstance(it.value, ast.Name) and it.value.id in env
+                and self.kind(self.spec.types.get(it.value.id, ""))[0] == "tree"):
+            return None
+        if not (isinstance(g.elt, ast.Subscript) and isinstance(g.elt.value, ast.Name) and g.elt.value.id in env
+                and isinstance(g.elt.slice, ast.Name) and g.elt.slice.id == c and c not in env):
+            return None
+        d = g.elt.value.id
+        dt = self.spec.types.get(d, "")
+        tt = self.spec.types[it.value.id]
+        if self.kind(dt)[0] != "nodedict" or self.unit.nodedicts[dt][0] != tt or self.spec.types.get(c) != tt:
+            return None
+        return d, dt, it.value.id
+
+    def ntype8(self, e, env) -> Optional[str]:
+        if isinstance(e, ast.BinOp) and isinstance(e.op, ast.BitOr):
+            try:
+                lt, rt = self.ntype(e.left, env), self.ntype(e.right, env)
+            except TranslatorAbort:
+                return None
+            if lt == rt and self.set8(lt) is not None:
+                return lt
+        if isinstance(e, ast.Call) and isinstance(e.func, ast.Name) and e.func.id == "set" and "set" not in self.spec.types \
+                and not e.keywords and len(e.args) <= 1:
+            return "newset8"
+        if isinstance(e, ast.Call) and isinstance(e.func, ast.Attribute) and e.func.attr == "difference" \
+                and isinstance(e.func.value, ast.Call) and isinstance(e.func.value.func, ast.Attribute) \
+                and e.func.value.func.attr == "union":
+            return "newset8"
+        if isinstance(e, ast.Call) and isinstance(e.func, ast.Name) and e.func.id == "defaultdict" \
+                and "defaultdict" not in self.spec.types:
+            return "newddict8"
+        if isinstance(e, ast.DictComp):
+            return "newdict8"
+        if isinstance(e, ast.Dict) and not e.keys:
+            return "newdict8"
+        if isinstance(e, ast.Call) and isinstance(e.func, ast.Name) and e.func.id in env and not e.keywords \
+                and self.spec.types.get(e.func.id) in self.unit.varcalls8:
+            return self.unit.varcalls8[self.spec.types[e.func.id]][1]
+        return None
+
+    def expr8(self, e, want: str, env, hoist) -> Optional[str]:
+        """Expression forms of the eighth extension (None: none applies)."""
+        s8 = self.set8(want)
+        if s8 is not None:
+            et, eqf, _ = s8
+            if isinstance(e, ast.Call) and isinstance(e.func, ast.Name) and e.func.id == "set" and "set" not in self.spec.types \
+                    and not e.keywords and not self.unit.rebinds("set"):
+                if not e.args:
+                    return f"(@nil ({self.ct(et) if et not in self.unit.trees else self.unit.ident_of(et)}))"      # set()
+                if len(e.args) == 1 and self.ntype(e.args[0], env) == "list " + et:
+                    # set(xs), xs a list (or any iterable given as the list of its items): each item once
+                    return f"(gset_of_list {eqf} {self.expr(e.args[0], 'list ' + et, env, hoist)})"
+                self.abort(e, f"set(..) of something that is not a list of {et}")
+            if isinstance(e, ast.BinOp) and isinstance(e.op, ast.BitOr):
+                # a | b on two sets: a new set
+                a, b = self.expr(e.left, want, env, hoist), self.expr(e.right, want, env, hoist)
+                return f"(gset_union {eqf} {a} {b})"
+            if isinstance(e, ast.Call) and isinstance(e.func, ast.Attribute) and e.func.attr == "difference" \
+                    and isinstance(e.func.value, ast.Call) and isinstance(e.func.value.func, ast.Attribute) \
+                    and e.func.value.func.attr == "union":
+                # set().union(*(d1[c] for c in x.children)).difference(*(d2[c] for c in x.children)): the values d1[c] are
+                # read first, in the order of the children (KeyError), then united; then the values d2[c], removed
+                u = e.func.value
+                base = u.func.value
+                ok = isinstance(base, ast.Call) and isinstance(base.func, ast.Name) and base.func.id == "set" and not base.args \
+                    and not base.keywords and "set" not in self.spec.types and not self.unit.rebinds("set") \
+                    and not e.keywords and not u.keywords and len(e.args) == 1 and len(u.args) == 1 \
+                    and isinstance(e.args[0], ast.Starred) and isinstance(u.args[0], ast.Starred)
+                g1 = self.children_gets8(u.args[0].value, env) if ok else None
+                g2 = self.children_gets8(e.args[0].value, env) if ok else None
+                if g1 is None or g2 is None or self.unit.nodedicts[g1[1]][1] != want or self.unit.nodedicts[g2[1]][1] != want:
+                    self.abort(e, "set().union(..).difference(..) other than over (d[c] for c in x.children)")
+                self.need("KeyError")
+                terms = []
+                for d, dt, x in (g1, g2):
+                    tt = self.unit.nodedicts[dt][0]
+                    q = self.unit.q(tt)
+                    self.nt += 1
+                    hoist.append(("unwrap", f"t'{self.nt}",
+                                  f"dict_gets8 {self.unit.nodedicts[dt][2]} {d} (map (@{q}{tt}_id _) ({tt}_children8 {x}))", "KeyError"))
+                    terms.append(f"t'{self.nt}")
+                return f"(fold_left (gset_diff {eqf}) {terms[1]} (fold_left (gset_union {eqf}) {terms[0]} nil))"
+        if want in self.unit.ddicts8 and isinstance(e, ast.Call) and isinstance(e.func, ast.Name) and e.func.id == "defaultdict" \
+                and "defaultdict" not in self.spec.types:
+            # defaultdict(set): a new dictionary without items
+            if not (len(e.args) == 1 and not e.keywords and isinstance(e.args[0], ast.Name) and e.args[0].id == "set"
+                    and "set" not in self.spec.types and not self.unit.rebinds("set")):
+                self.abort(e, "defaultdict(..) other than defaultdict(set)")
+            self.unit.imported("defaultdict", "collections")
+            kt, st = self.unit.ddicts8[want]
+            return f"(@nil ({self.ct(kt)} * {self.ct(st)}))"
+        if self.kind(want)[0] == "nodedict" and isinstance(e, ast.Dict) and not e.keys:
+            tree, vt, _ = self.unit.nodedicts[want]
+            return f"(@nil ({self.unit.ident_of(tree)} * {self.ct(vt)}))"
+        if self.kind(want)[0] == "nodedict" and isinstance(e, ast.DictComp):
+            # {node: set() for node in t.traverse(..)}: one store per node, in that order (kept newest first)
+            tree, vt, _ = self.unit.nodedicts[want]
+            g = e.generators[0] if len(e.generators) == 1 else None
+            tr = self.traverse_of(g.iter, env) if g is not None and not g.ifs and not g.is_async else None
+            if tr is None or tr[0] != tree or not isinstance(g.target, ast.Name) or not isinstance(e.key, ast.Name) \
+                    or e.key.id != g.target.id or g.target.id in env or self.spec.types.get(g.target.id) != tree:
+                self.abort(e, "dictionary comprehension other than {node: e for node in <tree>.traverse(..)}")
+            self.unit.traversals.add((tr[0], tr[1]))
+            sub: list = []
+            val = self.expr(e.value, vt, env, sub)
+            tv = self.expr(tr[2], tree, env, sub)
+            if sub or g.target.id in _names([e.value]):
+                self.abort(e, "comprehension whose value can raise / mentions the node")
+            q = self.unit.q(tree)
+            return f"(rev (map (fun node' => ({q}{tree}_id node', {val})) ({tree}_{tr[1]} {tv})))"
+        if isinstance(e, ast.Call) and isinstance(e.func, ast.Name) and e.func.id in env and not e.keywords \
+                and self.spec.types.get(e.func.id) in self.unit.varcalls8:
+            # f(*s), f a variable of an opaque type whose call the driver declares, s a set: the items of s in the order the
+            # set's order parameter decides
+            argt, rt, fn = self.unit.varcalls8[self.spec.types[e.func.id]]
+            if rt != want or len(e.args) != 1 or not isinstance(e.args[0], ast.Starred) \
+                    or not isinstance(e.args[0].value, ast.Name) or e.args[0].value.id not in env \
+                    or self.spec.types.get(e.args[0].value.id) != argt or self.set8(argt) is None:
+                self.abort(e, f"call of {e.func.id} other than {e.func.id}(*<variable of type {argt}>) where a {rt} is expected")
+            return f"({fn} {e.func.id} ({self.set8(argt)[2]} {e.args[0].value.id}))"
+        return None
+
+    def subst8(self, stmts, x: str, repl):
+        """`stmts` with every `x[..]` (x a proxy alias) replaced by `<repl>[..]`; any other mention of x aborts."""
+        fun = self
+
+        class _R(ast.NodeTransformer):
+            def visit_Subscript(self_, node):
+                if isinstance(node.value, ast.Name) and node.value.id == x and isinstance(node.ctx, ast.Load):
+                    new = ast.copy_location(ast.Subscript(value=copy.deepcopy(repl), slice=self_.visit(node.slice), ctx=ast.Load()), node)
+                    return ast.fix_missing_locations(new)
+                return self_.generic_visit(node)
+
+            def visit_Name(self_, node):
+                if node.id == x:
+                    fun.abort(node, f"use of the proxy alias {x!r} other than {x}[..]")
+                return node
+        return [_R().visit(copy.deepcopy(b)) for b in stmts]
+
+    def kind_choice8(self, n, env):
+        """(xs, index node, key node, field, named tuple, dictionary type) when `n` is `xs[i][k].f`: xs a local tuple of
+        dictionaries keyed by the members of an enum (`Unit.kinddicts8`) whose values are named tuples with the field f."""
+        if not (isinstance(n, ast.Attribute) and isinstance(n.value, ast.Subscript) and isinstance(n.value.value, ast.Subscript)
+                and isinstance(n.value.value.value, ast.Name) and not isinstance(n.value.slice, ast.Slice)
+                and not isinstance(n.value.value.slice, ast.Slice)):
+            return None
+        x = n.value.value.value.id
+        xt = self.spec.types.get(x, "")
+        if x not in env or not is_tuple(xt) or arg_of(xt) not in self.unit.kinddicts8:
+            return None
+        enum, cname = self.unit.kinddicts8[arg_of(xt)]
+        if n.attr not in self.unit.datas[cname].fields:
+            self.abort(n, f"{cname} has no field {n.attr!r}")
+        return x, n.value.value.slice, n.value.slice, n.attr, cname, arg_of(xt)
+
+    def block8(self, s, rest, env, ctx, h) -> Optional[List[str]]:
+        """Statements of the eighth extension; None when `s` is none of them."""
+        u = self.unit
+        if isinstance(s, ast.AnnAssign) and s.value is not None and isinstance(s.target, ast.Name) and s.simple:
+            # x: T = e in a function body: the annotation of a local variable is not evaluated (PEP 526): x = e
+            s2 = ast.copy_location(ast.Assign(targets=[s.target], value=s.value), s)
+            return self.block([s2] + rest, env, ctx)
+        if isinstance(s, ast.Assign) and len(s.targets) == 1 and isinstance(s.targets[0], ast.Name):
+            x, v = s.targets[0].id, s.value
+            xt = self.spec.types.get(x, "")
+            new8 = (xt in u.ddicts8 and isinstance(v, ast.Call) and isinstance(v.func, ast.Name) and v.func.id == "defaultdict") \
+                or (self.kind(xt)[0] == "nodedict" and (isinstance(v, ast.DictComp) or (isinstance(v, ast.Dict) and not v.keys)))
+            if new8:
+                if x in self.params or x in self.fieldvars:
+                    self.abort(s, f"assignment to the parameter / attribute {x!r}")
+                term = self.expr8(v, xt, env, h)
+                env2 = [w for w in env if w != x + "!"]
+                return self.hoisted(h, [f"let {x} := {term} in"] + self.block(rest, env2 + [x] * (x not in env2), ctx), ctx)
+            if self.kind(xt)[0] == "nodedict" and isinstance(v, ast.Call) and isinstance(v.func, ast.Name) \
+                    and v.func.id in u.functions and v.func.id not in self.spec.types and u.functions[v.func.id].fresh \
+                    and u.functions[v.func.id].ret == xt and not u.mutates.get(v.func.id) and not v.keywords:
+                # d = f(..), f a function of the unit that builds and returns a new dictionary keyed by nodes
+                if x in self.params or x in self.fieldvars:
+                    self.abort(s, f"assignment to the parameter / attribute {x!r}")
+                term = self.expr(v, xt, env, h)
+                env2 = [w for w in env if w != x + "!"]
+                return self.hoisted(h, [f"let {x} := {term} in"] + self.block(rest, env2 + [x] * (x not in env2), ctx), ctx)
+            if xt == "proxyalias":
+                # x = table[a][b]: a proxy -- a (table, prefix) pair without state of its own -- is given a name.  The chain is
+                # evaluated here (reading may give the table's dictionaries the keys; errors are raised here), and every later
+                # x[k].. is the chain table[a][b][k].. evaluated in full: the driver's assumption (`proxy_alias8`) is that
+                # evaluating table[a][b] again on the same keys has no further effect and yields an equal proxy
+                if not u.proxy_alias8 or self.chain_parse(v, env) is None or not isinstance(v, ast.Subscript) or x in self.params:
+                    self.abort(s, f"{x!r}, declared a proxy alias, is bound to something other than a chain of subscripts")
+                names = _names([v])
+                later = self.assigned(rest)
+                if x in later or any(n_ in later for n_ in names if n_ != self.chain_parse(v, env)[0][1]):
+                    self.abort(s, f"{x!r} or a key of the chain it names is assigned again afterwards")
+                if any(isinstance(n_, (ast.Call, ast.Attribute)) for k_ in ast.walk(v) if isinstance(k_, ast.Subscript)
+                       for n_ in ast.walk(k_.slice)):
+                    self.abort(s, "key of an aliased chain that is not a plain variable")
+                self.chain(v, env, h)
+                return self.hoisted(h, self.block(self.subst8(rest, x, v), env, ctx), ctx)
+            if is_tuple(xt) and arg_of(xt) in u.kinddicts8 and isinstance(v, ast.Call) and isinstance(v.func, ast.Name) \
+                    and v.func.id == "tuple":
+                # xs = tuple(dict((kind, C._make(o.m() for _ in range(len(C._fields)))) for kind in E) for _ in range(k)):
+                # k dictionaries with one item per member of the enum E, in definition order, whose values are named tuples
+                # with every field the result of o.m() (evaluated once: see `make_idiom`)
+                enum, cname = u.kinddicts8[arg_of(xt)]
+                ok = len(v.args) == 1 and not v.keywords and isinstance(v.args[0], ast.GeneratorExp) and "tuple" not in self.spec.types \
+                    and "dict" not in self.spec.types and not u.rebinds("tuple") and not u.rebinds("dict") \
+                    and x not in self.params and x not in self.fieldvars
+                outer = v.args[0] if ok else None
+                dc = outer.elt if ok else None
+                ok = ok and isinstance(dc, ast.Call) and isinstance(dc.func, ast.Name) and dc.func.id == "dict" and len(dc.args) == 1 \
+                    and not dc.keywords and isinstance(dc.args[0], ast.GeneratorExp) and len(dc.args[0].generators) == 1
+                g = dc.args[0].generators[0] if ok else None
+                ok = ok and not g.ifs and not g.is_async and isinstance(g.target, ast.Name) and self.enum_iter8(g.iter) == enum \
+                    and isinstance(dc.args[0].elt, ast.Tuple) and len(dc.args[0].elt.elts) == 2 \
+                    and isinstance(dc.args[0].elt.elts[0], ast.Name) and dc.args[0].elt.elts[0].id == g.target.id
+                if not ok:
+                    self.abort(s, "tuple(dict(..)) outside the handled idiom")
+                # reuse `make_idiom` on  xs' = tuple(C._make(..) for _ in range(k))
+                fake_t = "tuple " + cname
+                tmpname = x + "'mk"
+                self.spec.types[tmpname] = fake_t
+                fake = ast.copy_location(ast.Assign(targets=[ast.Name(id=tmpname, ctx=ast.Store())], value=ast.copy_location(
+                    ast.Call(func=v.func, args=[ast.copy_location(ast.GeneratorExp(elt=dc.args[0].elt.elts[1], generators=outer.generators), outer)],
+                             keywords=[]), v)), s)
+                ast.fix_missing_locations(fake)
+                made = self.make_idiom(fake, env)
+                del self.spec.types[tmpname]
+                if made is None:
+                    self.abort(s, "tuple(dict(..)) outside the handled idiom")
+                _, _, call, k = made
+                nf = len(u.datas[cname].fields)
+                term = self.expr(call, list(u.datas[cname].fields.values())[0], env, h)
+                rec = "(" + " ".join([f"mk_{cname}"] + [term] * nf) + ")"
+                items = "nil"
+                for m_ in reversed(u.enums[enum]):
+                    items = f"(cons ({enum}_{m_}, {rec}) {items})"
+                env2 = [w for w in env if w != x + "!"]
+                return self.hoisted(h, [f"let {x} := (repeat {items} {k}) in"] + self.block(rest, env2 + [x] * (x not in env2), ctx), ctx)
+        if isinstance(s, ast.Expr) and isinstance(s.value, ast.Call) and isinstance(s.value.func, ast.Attribute) \
+                and s.value.func.attr == "add" and len(s.value.args) == 1 and not s.value.keywords \
+                and isinstance(s.value.func.value, ast.Subscript) and isinstance(s.value.func.value.value, ast.Name) \
+                and s.value.func.value.value.id in env and not isinstance(s.value.func.value.slice, ast.Slice):
+            d = s.value.func.value.value.id
+            dt = self.spec.types.get(d, "")
+            keyn, argn = s.value.func.value.slice, s.value.args[0]
+            if d in self.params or d in self.fieldvars or d in _names([keyn, argn]):
+                self.abort(s, f"update of the parameter / attribute {d!r} (or a key / element that mentions it)")
+            if dt in u.ddicts8:
+                # d[k].add(e), d a defaultdict(set): a missing key is given the empty set (a new last item), then e is added
+                kt, st = u.ddicts8[dt]
+                et, eqf, _ = self.set8(st)
+                key = self.expr(keyn, kt, env, h)
+                val = self.expr(argn, et, env, h)
+                keqb = u.opaques[kt][1].get("eqb")
+                return self.hoisted(h, [f"let {d} := (ddict_add8 {keqb} {eqf} {d} {key} {val}) in"] + self.block(rest, env, ctx), ctx)
+            if self.kind(dt)[0] == "nodedict" and self.set8(u.nodedicts[dt][1]) is not None:
+                # d[k].add(e), d a dictionary keyed by nodes whose values are sets (no two keys sharing one): the set at k is
+                # read (KeyError), e added, the new set stored for k
+                tree, st, keqf = u.nodedicts[dt]
+                et, eqf, _ = self.set8(st)
+                kt = self.ntype(keyn, env)
+                if kt == tree:
+                    key = f"({u.q(tree)}{tree}_id {self.raw(keyn, tree, env, h)})"
+                elif kt == "NodeId8":
+                    key = self.expr(keyn, kt, env, h)
+                else:
+                    self.abort(s, f"key of a {dt} that is not a node of a {tree}")
+                self.need("dict_get", "KeyError")
+                self.nt += 2
+                kv, old = f"t'{self.nt - 1}", f"t'{self.nt}"
+                h.append(("let", kv, key))
+                h.append(("unwrap", old, f"dict_get {keqf} {d} {kv}", "KeyError"))
+                val = self.expr(argn, et, env, h)
+                return self.hoisted(h, [f"let {d} := (cons ({kv}, gset_add {eqf} {val} {old}) {d}) in"] + self.block(rest, env, ctx), ctx)
+        if isinstance(s, ast.Expr) and isinstance(s.value, ast.Call) and isinstance(s.value.func, ast.Attribute) \
+                and self.kind_choice8(s.value.func.value, env) is not None:
+            # xs[i][k].f.m(args): the item i of the tuple is read (IndexError), the value of its key k (KeyError), the method
+            # run on the object of its field f; the object is put back into the named tuple, that into the dictionary (where k
+            # stands) and the dictionary into the tuple
+            x, idxn, keyn, f, cname, dtn = self.kind_choice8(s.value.func.value, env)
+            enum = u.kinddicts8[dtn][0]
+            if x in self.params or x in self.fieldvars or x in _names(s.value.args + [idxn, keyn]) or s.value.keywords:
+                self.abort(s, f"update of an object held by {x!r} outside the handled form")
+            k_, name, sfx = self.kind(u.datas[cname].fields[f])
+            m = next((q for q in u.done_methods.get(name, []) if q.name == s.value.func.attr), None) if k_ == "class" else None
+            if m is None or (m.ret and m.ret != "unit"):
+                self.abort(s, f"{s.value.func.attr!r} is not a translated method returning nothing of the field {f!r}")
+            if self.ntype(idxn, env) not in ("N", "lit") or self.ntype(keyn, env) != enum:
+                self.abort(s, f"index that is not of type N / key that is not of type {enum}")
+            self.need("nset", "KeyError", "adict_get", "adict_set")
+            idx = self.expr(idxn, "N", env, h)
+            key = self.expr(keyn, enum, env, h)
+            self.nt += 3
+            dct, item, obj = f"t'{self.nt - 2}", f"t'{self.nt - 1}", f"t'{self.nt}"
+            ha: list = []
+            cls = u.classes[name]
+            args = self.method_args(s.value, cls, m, sfx, env, ha)
+            fields = list(u.datas[cname].fields)
+            rebuilt = "(" + " ".join([f"mk_{cname}"] + [obj if g == f else f"({cname}_{g} {item})" for g in fields]) + ")"
+            inner = [f"match {self.mcall(s, cls, m, sfx, f'({cname}_{f} {item})', args)} with", "| Err e' => " + ctx.fail("e'"),
+                     f"| Ok ({obj}, _) =>",
+                     f"  match nset {x} {idx} (adict_set {enum}_eqb {dct} {key} {rebuilt}) with", f"  | None => {ctx.fail('IndexError')}",
+                     f"  | Some {x} =>"] + _ind(_ind(self.block(rest, env, ctx))) + ["  end", "end"]
+            return self.hoisted(h, [f"match nth_error {x} (N.to_nat {idx}) with", f"| None => {ctx.fail('IndexError')}",
+                                    f"| Some {dct} =>",
+                                    f"  match adict_get {enum}_eqb {dct} {key} with", f"  | None => {ctx.fail('KeyError')}",
+                                    f"  | Some {item} =>"] + _ind(_ind(self.hoisted(ha, inner, ctx))) + ["  end", "end"], ctx)
+        if isinstance(s, (ast.Expr, ast.Assign)) and u.kinddicts8:
+            # xs[<literal>][k].f inside a statement (k a variable): the objects are read first, in the order of their first
+            # occurrence (IndexError, KeyError), and named -- see `item_field_reads` in `block7`
+            reads = []
+
+            def walk(n):
+                kc = self.kind_choice8(n, env) if isinstance(n, ast.Attribute) and isinstance(n.ctx, ast.Load) else None
+                if kc is not None and isinstance(kc[1], ast.Constant) and type(kc[1].value) is int and kc[1].value >= 0 \
+                        and isinstance(kc[2], ast.Name) and kc[2].id in env \
+                        and self.kind(u.datas[kc[4]].fields[kc[3]])[0] == "class":
+                    key = (kc[0], kc[1].value, kc[2].id, kc[3], kc[4], kc[5])
+                    if key not in reads:
+                        reads.append(key)
+                    return
+                for c in ast.iter_child_nodes(n):
+                    walk(c)
+            walk(s)
+            if reads:
+                self.need("KeyError", "adict_get")
+                lines_open, names = [], {}
+                for (x, i, kv, f, cname, dtn) in reads:
+                    enum = u.kinddicts8[dtn][0]
+                    if x in self.params or x in self.fieldvars or self.spec.types.get(kv) != enum:
+                        self.abort(s, f"read of {x}[{i}][{kv}].{f} outside the handled form")
+                    nm = f"{x}_{i}_{kv}_{f}"
+                    if (nm in self.spec.types and nm not in getattr(self, "borrowed7", set())) or nm in env:
+                        self.abort(s, f"the name {nm!r} is in use")
+                    self.spec.types[nm] = u.datas[cname].fields[f]
+                    self.borrowed7 = getattr(self, "borrowed7", set()) | {nm}
+                    names[(x, i, kv, f)] = nm
+                    self.nt += 2
+                    lines_open += [f"match nth_error {x} {i} with", f"| None => {ctx.fail('IndexError')}", f"| Some t'{self.nt - 1} =>",
+                                   f"match adict_get {enum}_eqb t'{self.nt - 1} {kv} with", f"| None => {ctx.fail('KeyError')}",
+                                   f"| Some t'{self.nt} =>", f"let {nm} := ({cname}_{f} t'{self.nt}) in"]
+                fun = self
+
+                class _R(ast.NodeTransformer):
+                    def visit_Attribute(self_, node):
+                        kc = fun.kind_choice8(node, env) if isinstance(node.ctx, ast.Load) else None
+                        if kc is not None and isinstance(kc[1], ast.Constant) and isinstance(kc[2], ast.Name) \
+                                and (kc[0], kc[1].value, kc[2].id, kc[3]) in names:
+                            return ast.copy_location(ast.Name(id=names[(kc[0], kc[1].value, kc[2].id, kc[3])], ctx=ast.Load()), node)
+                        return self_.generic_visit(node)
+                s2 = _R().visit(copy.deepcopy(s))
+                return lines_open + self.block([s2] + rest, env + list(names.values()), ctx) + ["end"] * (2 * len(reads))
+        return None
+
     def block6(self, s, rest, env, ctx, h) -> Optional[List[str]]:
         """The statement forms of the sixth extension (None: `s` is not one of them)."""
         ct = self.celltype()
@@ -3648,6 +4099,10 @@ class _Fun:
         self.mark_calls(s)
         if isinstance(s, (ast.Return, ast.Break)) and rest:
             self.abort(rest[0], "statement after return/break")
+        if self.unit is not None and self.unit.eighth:
+            r = self.block8(s, rest, env, ctx, h)
+            if r is not None:
+                return r
         if self.unit is not None and self.unit.seventh:
             r = self.block7(s, rest, env, ctx, h)
             if r is not None:
@@ -4035,7 +4490,19 @@ class _Fun:
                 if not self.unit.snapshot_iteration:
                     self.abort(s, "iteration over a view of the table (the unit does not declare snapshot_iteration)")
                 s.iter.snapshot7 = True
-        if isinstance(s, ast.For) and self.unit is not None and isinstance(s.target, ast.Name) \
+        if isinstance(s, ast.For) and self.unit is not None and self.unit.eighth and isinstance(s.target, ast.Name) \
+                and self.enum_iter8(s.iter) is not None:
+            it, kind, targets = s.iter, "each", [s.target.id]          # (eighth extension) for x in <Enum>
+        elif isinstance(s, ast.For) and self.unit is not None and self.unit.eighth and isinstance(s.target, ast.Tuple) \
+                and len(s.target.elts) == 2 and all(isinstance(x, ast.Name) for x in s.target.elts) \
+                and self.items8(s.iter, env) is not None:
+            it, kind, targets = s.iter, "each", [x.id for x in s.target.elts]      # (eighth extension) for k, v in d.items()
+            pattern = list(targets)
+        elif isinstance(s, ast.For) and self.unit is not None and self.unit.eighth and isinstance(s.target, ast.Name) \
+                and isinstance(s.iter, ast.Call) and isinstance(s.iter.func, ast.Name) and not s.iter.keywords \
+                and "->" in self.spec.types.get(s.iter.func.id, "") and s.iter.func.id in self.params:
+            it, kind, targets = s.iter, "each", [s.target.id]          # (eighth extension) for x in f(..), f a parameter of function type
+        elif isinstance(s, ast.For) and self.unit is not None and isinstance(s.target, ast.Name) \
                 and isinstance(s.iter, ast.Attribute) and s.iter.attr == "children" and isinstance(s.iter.value, ast.Name) \
                 and s.iter.value.id in env and self.kind(self.spec.types.get(s.iter.value.id, ""))[0] == "ntree":
             it, kind, targets = s.iter, "children", [s.target.id]
@@ -4326,6 +4793,19 @@ class _Fun:
 
     def iterable(self, s, a, env, h, mutated):
         """(term, Coq type, element type) of the list or set `a` a loop iterates (in list order)."""
+        if self.enum_iter8(a) is not None:
+            # (eighth extension) for x in E, E an enum class: its members in definition order
+            en = self.enum_iter8(a)
+            term = "nil"
+            for m_ in reversed(self.unit.enums[en]):
+                term = f"(cons {self.unit.q(en)}{en}_{m_} {term})"
+            return term, f"list {self.ct(en)}", en
+        if self.items8(a, env) is not None:
+            # (eighth extension) for k, v in d.items(): the items in iteration order (insertion order for a dict)
+            term, et = self.items8(a, env)
+            if any(n in mutated for n in _names([a])):
+                self.abort(s, "the loop modifies the dictionary it iterates")
+            return term, self.ct("list (" + et + ")"), et
         ts = self.tail_slice(a, env)
         if ts is not None:
             # xs[k:]: a copy of xs without its first k items (all of them when k >= len(xs)); never raises
@@ -4760,6 +5240,13 @@ class Unit:
         self.fun_defaults: Dict[str, dict] = {}   # translated function -> {parameter: its (int literal) default}
         # fifth extension (all empty / False for the units that do not call `use_containers`)
         self.seventh = False                   # seventh extension (see `use_seventh`)
+        self.eighth = False                    # eighth extension (see `use_eighth`)
+        self.sets8: Dict[str, tuple] = {}      # (eighth extension) set type -> (element type, Coq equality, order parameter)
+        self.ddicts8: Dict[str, tuple] = {}    # (eighth extension) defaultdict(set) type -> (key type, set type)
+        self.items8: Dict[str, tuple] = {}     # (eighth extension) mapping type -> (Coq function giving its items, item type)
+        self.kinddicts8: Dict[str, tuple] = {}  # (eighth extension) dict keyed by ALL members of an enum -> (enum, named tuple of its values)
+        self.varcalls8: Dict[str, tuple] = {}  # (eighth extension) opaque type -> (set type of *args, result type, Coq function): x(*s)
+        self.proxy_alias8 = False              # (eighth extension) `x = table[a][b]` names a stateless proxy (see `_Fun.block8`)
         self.kwparams: Dict[str, List[str]] = {}   # imported function -> its parameter names (keyword arguments at calls)
         self.externals_res: Dict[str, tuple] = {}  # (seventh extension) imported function that can fail -> (argument types, result type, Coq function)
         self.mapping_mem: Dict[str, str] = {}      # (seventh extension) mapping type -> Coq function deciding `node in d`
@@ -5130,6 +5617,12 @@ class Unit:
         """`for x in tqdm(xs, ..)` iterates xs (checked: `tqdm` is bound exactly once, by `from tqdm import tqdm`)."""
         self.imported("tqdm", "tqdm")
         self.tqdm_ok = True
+
+    def use_eighth(self):
+        """Switch on the eighth extension (see the module docstring); needs `use_tables` and `use_seventh`."""
+        if not (self.tables and self.seventh):
+            self.abort(self.tree, "use_eighth needs use_tables and use_seventh")
+        self.eighth = True
 
     def use_seventh(self):
         """Switch on the seventh extension (used by `translator/spfs_gen.py`)."""
